@@ -433,6 +433,11 @@ func genC08(r *simrt.Rand, idx int, tier string) ConcCase {
 				ops = append(ops, Op{K: "yield", N: r.Intn(40)})
 			}
 		}
+		if idx%4 == 2 {
+			// seconds pass before the collector looks again (whoever is in the middle of something
+			// stays there meanwhile)
+			ops = append(ops, Op{K: "advance", N: 1100 + r.Intn(3000)}, Op{K: "gc"})
+		}
 		if r.Intn(4) == 0 {
 			// in between, the shared counter leaps ahead (other traffic in the process)
 			ops = append(ops, Op{K: "seqjump", Size: []int{1<<20 + 1, 1 << 21, 1 << 32}[r.Intn(3)]}, Op{K: "gc"})
